@@ -6,7 +6,9 @@ import (
 	"testing"
 )
 
-// TestC19Race runs a few stress rounds of the C19 driver so that `go test -race` can watch them.
+// TestC19Race runs stress rounds of the C19 driver so that `go test -race` can watch them: a few seeded
+// rounds as in the check itself, and rounds that aim at the places where GluonLocks says the single-owner rule
+// is broken (snapshots read or written by the update goroutine and by other sessions' removeState).
 // It is started by the driver in the thorough tier (raceStep); a race report fails the test.
 func TestC19Race(t *testing.T) {
 	seed := int64(1)
@@ -15,17 +17,36 @@ func TestC19Race(t *testing.T) {
 			seed = n
 		}
 	}
-	for round := 0; round < 6; round++ {
-		sc := makeScenario(seed, 1000+round, "quick")
+	var scs []*scenario
+	for round := 0; round < 4; round++ {
+		scs = append(scs, makeScenario(seed, 1000+round, "quick"))
+	}
+	for round := 0; round < 3; round++ {
+		sc := &scenario{Seed: seed, Round: 2000 + round, Users: 1}
+		busy := []string{"select", "store", "purge", "select", "fetch", "store", "expunge", "select", "search", "store", "select", "purge"}
+		for i := 0; i < 4; i++ {
+			end := "logout"
+			if i%2 == 1 {
+				end = "drop"
+			}
+			sc.Clients = append(sc.Clients, clientSc{User: 0, Steps: busy, End: end})
+		}
+		for i := 0; i < 40; i++ {
+			sc.Updates = append(sc.Updates, []string{"idchg", "flags", "create", "idchg"}[i%4])
+		}
+		sc.Shutdown = []shutStep{{Call: "close", At: 4*len(busy) + 8}}
+		scs = append(scs, sc)
+	}
+	for _, sc := range scs {
 		out, err := runRound(sc, nil)
 		if err != nil {
-			t.Fatalf("round %d: %v", round, err)
+			t.Fatalf("round %d: %v", sc.Round, err)
 		}
 		for _, f := range out.Findings {
 			t.Logf("finding %s", f.Key)
 		}
 		if out.Fatal {
-			t.Fatalf("round %d: a watchdog fired", round)
+			t.Fatalf("round %d: a watchdog fired", sc.Round)
 		}
 	}
 }
